@@ -1063,6 +1063,9 @@ def c10_cases(tier, seed):
                 for qi, suf in enumerate(["", C10_PREFIX[(pi * 7 + si) % len(C10_PREFIX)]]):
                     if pre.startswith("import") and suf.startswith("import"):
                         continue
+                    # an import that BINDS a name the statement references changes the statement's bindings: not a distractor
+                    if "Fragment" in stmt and (pre.startswith("import") or suf.startswith("import")):
+                        continue
                     n += 1
                     k = len([x for x in pre.split(";") if x.strip()]) if not pre.startswith(("function", "class", "for", "import")) else 1
                     # count top-level statements of the prefix by parsing convention: each prefix is written as k statements
